@@ -30,6 +30,8 @@ CONSTRUCTS = {
  'let_let_assert': "let\n  a = 1;\nin\nlet\n  b = 2;\nin\nassert a;\nb", 'let_let_string': "let\n  a = 1;\nin\nlet\n  b = 2;\nin\n\"s\"",
  'inherit_from_multi': "{\n  inherit\n    (import ./lib.nix {\n      inherit pkgs;\n    })\n    foo\n    bar\n    ;\n  version = 1;\n}", 'inherit_from_multi_1line': "{\n  inherit (import ./lib.nix {\n    inherit pkgs;\n  }) foo bar;\n  version = 1;\n}",
  'has_attr_quoted': 's ? "a . b"', 'has_attr_quoted_mid': 's ? a."b. c".d', 'has_attr_interp': 's ? ${x}.c', 'select_quoted': 's."a . b".c', 'select_interp': 's.${x}.c or d',
+ # twelfth round (reported by a sub-agent on the unchanged tree, F-60): a unary minus whose operand begins with a path — written without the blank the two lex as ONE path token
+ 'neg_path': "- ./a", 'neg_path_rel': "- a/b", 'neg_path_abs': "- /a", 'neg_path_call': "- ./f x", 'neg_path_interp': "- ./a/${b}", 'neg_neg': "--a", 'neg_int': "-1",
  'empty_list': "[ ]", 'empty_set': "{ }", 'empty_rec_set': "rec { }", 'empty_list_call': "f [ ] { }",
  'attrpath_quoted': "{\n  \"a\".b.\"c d\".e = 1;\n}", 'attrpath_interp': "{\n  ${x}.b.\"${y}\".c = 1;\n}",
  'dup_attrpath_sets': "{\n  a.b = {\n    x = 1;\n  };\n  a.b = {\n    y = 2;\n  };\n}", 'dup_attrpath_sets_apart': "{\n  s.n = {\n    e = true;\n  };\n  z = 1;\n  s.n = {\n    u = 2;\n  };\n}",
@@ -54,7 +56,7 @@ CONTEXTS = {'lambda_body': lambda e: 'x:\n' + e, 'top': lambda e: e, 'lead_ws': 
             'bindval': lambda e: "{\n  v = " + e.replace("\n", "\n  ") + ";\n}", 'listitem': lambda e: "[\n  " + e.replace("\n", "\n  ") + "\n]",
             # seventh round: multi-byte characters before the construct (a reader that mixes byte offsets and character indices reads every later gap shifted)
             'utf8_lead': lambda e: "{\n  s = \"€😀é\";\n  v = " + e.replace("\n", "\n  ") + ";\n}"}
-NOT_LIST_ITEMS = ('has_attr_quoted', 'has_attr_quoted_mid', 'has_attr_interp', 'let_import', 'let_let_import', 'let_attrpath_import', 'let_let_call', 'let_let_set', 'let_let_list', 'let_let_with', 'let_let_if', 'let_let_lambda', 'let_let_select', 'let_let_binary', 'let_let_paren', 'let_let_assert', 'let_let_string', 'empty_list_call', 'import', 'import_call', 'import_nl', 'import_paren', 'let_let', 'let_let_let', 'let_empty', 'let_empty_set', 'empty_formals', 'empty_formals_at', 'formals_ellipsis_only', 'with_list', 'with_set', 'with_istr', 'with_paren', 'with_call', 'with_multi_list', 'assert_list', 'assert_set', 'lambda_list', 'lambda_set', 'lambda_formals_set', 'let_set', 'let_list', 'if_set', 'call_list', 'call_istr', 'concat_list', 'update_set', 'formal_default_list', 'formal_default_multi', 'not_paren', 'inherit_in_let', 'if_multi', 'if_chain', 'with_multi', 'assert_multi', 'lambda_nl', 'call_multi', 'binary_multi', 'call', 'with', 'assert', 'if', 'lambda_id', 'lambda_formals', 'lambda_formals_multi', 'lambda_at', 'lambda_at_pre', 'let', 'binary', 'chain', 'update', 'has_attr', 'not', 'neg', 'select_or', 'call_set')
+NOT_LIST_ITEMS = ('neg_path', 'neg_path_rel', 'neg_path_abs', 'neg_path_call', 'neg_path_interp', 'neg_neg', 'neg_int', 'has_attr_quoted', 'has_attr_quoted_mid', 'has_attr_interp', 'let_import', 'let_let_import', 'let_attrpath_import', 'let_let_call', 'let_let_set', 'let_let_list', 'let_let_with', 'let_let_if', 'let_let_lambda', 'let_let_select', 'let_let_binary', 'let_let_paren', 'let_let_assert', 'let_let_string', 'empty_list_call', 'import', 'import_call', 'import_nl', 'import_paren', 'let_let', 'let_let_let', 'let_empty', 'let_empty_set', 'empty_formals', 'empty_formals_at', 'formals_ellipsis_only', 'with_list', 'with_set', 'with_istr', 'with_paren', 'with_call', 'with_multi_list', 'assert_list', 'assert_set', 'lambda_list', 'lambda_set', 'lambda_formals_set', 'let_set', 'let_list', 'if_set', 'call_list', 'call_istr', 'concat_list', 'update_set', 'formal_default_list', 'formal_default_multi', 'not_paren', 'inherit_in_let', 'if_multi', 'if_chain', 'with_multi', 'assert_multi', 'lambda_nl', 'call_multi', 'binary_multi', 'call', 'with', 'assert', 'if', 'lambda_id', 'lambda_formals', 'lambda_formals_multi', 'lambda_at', 'lambda_at_pre', 'let', 'binary', 'chain', 'update', 'has_attr', 'not', 'neg', 'select_or', 'call_set')
 # ---- nesting family: every sequence of up to three wrappers around a leaf, each wrapper with names of its own depth ----
 WRAP = {
  'let': lambda i, e: 'let\n  v%d = %d;\nin\n%s' % (i, i, e), 'lam': lambda i, e: 'x%d: %s' % (i, e), 'formals': lambda i, e: '{ p%d }: %s' % (i, e),
